@@ -711,9 +711,18 @@ func (g *G) topResources(doc *Y, c *svcCtx, tag string, dir string) {
 }
 
 // GenLayout generates a valid-by-construction multi-file project layout.
-func GenLayout(r *zsimrt.Run) *Layout {
+func GenLayout(r *zsimrt.Run) *Layout { return GenLayoutForced(r, nil) }
+
+// GenLayoutForced is GenLayout with some swarm features forced on or off.
+func GenLayoutForced(r *zsimrt.Run, forced map[string]bool) *Layout {
 	L := &Layout{Files: map[string]string{}, Env: map[string]string{}, Home: "/home/user", Entry: "loader"}
 	g := &G{R: r, feat: map[string]bool{}, L: L}
+	for k, v := range forced {
+		g.feat[k] = v
+		if v {
+			L.Features = append(L.Features, k)
+		}
+	}
 	root := g.pick("root", []string{"/proj", "/work/My.Project", "/srv/app_1"})
 	L.WorkingDir = root
 	L.Cwd = root
